@@ -25,7 +25,7 @@ from .. import symx
 from ..core import (AnalysisIncomplete, call_name, const_value, kwarg,
                     params, u, walk_local)
 from ..patterns import (Cmp, calls_in, check_no_arg_mutation, subscript_stores,
-                        check_warn_calls, conjuncts, finfo, returns_of)
+                        check_warn_calls, conjuncts, finfo, returns_of, shared)
 from .msm_common import BU, LM
 from ..match import CS, _closed_over
 from ..match import classify as _classify
@@ -45,8 +45,13 @@ EXPLANATION = (
     'equations as partial functions (same value and same divisor); every '
     'pair is updated in every sweep; guards of the log terms test the same '
     'quantity whose log is taken; (D4) sparse input is densified to an ndarray '
-    'and re-wrapped, the loop is bounded by range(max_iter), the work matrix '
-    'is a float copy; (D5) the returned T and pi are X/rowsum(X) and '
+    'and re-wrapped - the test that guards the densification holds for every '
+    'scipy sparse container class (7 formats x {matrix, array}: finite domain, '
+    'three-valued evaluation of the guard) -, the loop is bounded by '
+    'range(max_iter), the work matrix is a float copy, the dispatcher hands its '
+    'own matrix to the compiled estimator; (D3.domain) no buffer declaration '
+    'of the compiled estimator restricts the memory layout (mode="c"/"fortran") '
+    'unless every caller / initialiser provably yields that layout; (D5) the returned T and pi are X/rowsum(X) and '
     'rowsum/total. Optimality against every reversible competitor and the '
     '`assert c <= 0` rounding question are not decided.')
 
@@ -1231,6 +1236,490 @@ def _def_stmt(fi, name_node):
 
 
 # ---------------------------------------------------------------------------
+# D4: the test that decides whether the counts are densified covers EVERY
+# sparse container (finite abstract domain: the scipy container classes)
+
+_FORMATS = ('csr', 'csc', 'coo', 'lil', 'dok', 'dia', 'bsr')
+_SPARSE_KINDS = [(fam, f) for fam in ('matrix', 'array') for f in _FORMATS]
+_DENSIFIERS = ('toarray', 'todense')
+_ESTIMATORS = ('_prinz_mle_py', '_prinz_mle', '_mle_prinz_dense')
+
+
+def _kind_name(k):
+    return '%s_%s' % (k[1], k[0])
+
+
+def _qualified(ck, mod, name):
+    """Fully qualified spelling of a dotted name through the imports of the
+    module (`sparse.issparse` -> `scipy.sparse.issparse`); the text itself if
+    it is not an imported external name."""
+    if not name:
+        return ''
+    try:
+        t = shared(ck.repo)[0].resolve_dotted(mod.rel, name)
+    except Exception:
+        t = None
+    if t is not None and t.kind == 'ext' and t.ext:
+        return t.ext
+    return name
+
+
+def _class_kinds(q):
+    """The sparse kinds whose objects are instances of class `q`; None for a
+    class the table does not know.  scipy >= 1.11: `spmatrix` and `sparray`
+    are disjoint hierarchies, `<fmt>_array` is not a `<fmt>_matrix`."""
+    last = q.split('.')[-1]
+    if q.split('.')[0] in ('np', 'numpy') and last in ('ndarray', 'matrix', 'generic', 'number'):
+        return set()
+    if q in ('list', 'tuple', 'dict', 'int', 'float'):
+        return set()
+    if not q.startswith('scipy.sparse'):
+        return None
+    if last == 'spmatrix':
+        return {k for k in _SPARSE_KINDS if k[0] == 'matrix'}
+    if last == 'sparray':
+        return {k for k in _SPARSE_KINDS if k[0] == 'array'}
+    m = re.match(r'^(%s)_(matrix|array)$' % '|'.join(_FORMATS), last)
+    if m:
+        return {(m.group(2), m.group(1))}
+    return None
+
+
+def _container_atom(ck, mod, node, operand):
+    """kind -> True/False/None for an atomic test of the container class of
+    the value spelled `operand`; None if `node` is no such test."""
+    if not isinstance(node, ast.Call) or node.keywords:
+        return None
+    q = _qualified(ck, mod, call_name(node))
+    last = q.split('.')[-1]
+    if not node.args or u(node.args[0]) != operand:
+        return None
+    if q.startswith('scipy.sparse') and len(node.args) == 1:
+        if last == 'issparse':
+            return lambda k: True
+        if last == 'isspmatrix':
+            return lambda k: k[0] == 'matrix'
+        m = re.match(r'^isspmatrix_(%s)$' % '|'.join(_FORMATS), last)
+        if m:
+            return lambda k, f=m.group(1): k == ('matrix', f)
+        return None
+    if q == 'isinstance' and len(node.args) == 2:
+        cls = node.args[1].elts if isinstance(node.args[1], (ast.Tuple, ast.List)) else [node.args[1]]
+        sets = [_class_kinds(_qualified(ck, mod, u(c))) for c in cls]
+        known = set().union(*[s for s in sets if s is not None]) if sets else set()
+        unknown = any(s is None for s in sets)
+        return lambda k: True if k in known else (None if unknown else False)
+    if q == 'hasattr' and len(node.args) == 2 and const_value(node.args[1]) in ('toarray', 'todense', 'tocsr', 'tocoo', 'nnz'):
+        return lambda k: True
+    return None
+
+
+def _tv(test, k, atom):
+    """Three-valued value of a boolean test for container kind k."""
+    if isinstance(test, ast.UnaryOp) and isinstance(test.op, ast.Not):
+        v = _tv(test.operand, k, atom)
+        return None if v is None else not v
+    if isinstance(test, ast.BoolOp):
+        vs = [_tv(v, k, atom) for v in test.values]
+        absorbing = isinstance(test.op, ast.Or)
+        if any(v is absorbing for v in vs):
+            return absorbing
+        return None if any(v is None for v in vs) else (not absorbing)
+    f = atom(test)
+    return None if f is None else f(k)
+
+
+def _and3(vs):
+    vs = list(vs)
+    if any(v is False for v in vs):
+        return False
+    return None if any(v is None for v in vs) else True
+
+
+def _or3(vs):
+    vs = list(vs)
+    if any(v is True for v in vs):
+        return True
+    return None if any(v is None for v in vs) else False
+
+
+def _always_leaves(stmts):
+    """The block never falls through (ends in raise / return / continue /
+    break / `assert False`, or in an if/else whose arms both do)."""
+    live = [s for s in stmts if not isinstance(s, ast.Pass)]
+    if not live:
+        return False
+    last = live[-1]
+    if isinstance(last, (ast.Raise, ast.Return, ast.Continue, ast.Break)):
+        return True
+    if isinstance(last, ast.Assert) and const_value(last.test) is False:
+        return True
+    if isinstance(last, ast.If):
+        return _always_leaves(last.body) and _always_leaves(last.orelse)
+    return False
+
+
+def _controlling_tests(mod, node, fn):
+    """[(test, polarity, owner)]: the conditions under which `node` is
+    evaluated - the `if` statements / conditional expressions around it and
+    the earlier guard clauses of the same blocks (`if t: raise/return`).
+    None if it sits in a loop / try / with (it may then not be evaluated
+    although the tests hold)."""
+    out = []
+    child, n = node, mod.parent.get(node)
+    while n is not None:
+        if isinstance(child, ast.stmt):
+            for fld in ('body', 'orelse', 'finalbody'):
+                block = getattr(n, fld, None)
+                if isinstance(block, list) and any(child is x for x in block):
+                    for sib in block:
+                        if sib is child:
+                            break
+                        if isinstance(sib, ast.If):
+                            b, e = _always_leaves(sib.body), _always_leaves(sib.orelse)
+                            if b and not e:
+                                out.append((sib.test, False, sib))
+                            elif e and not b:
+                                out.append((sib.test, True, sib))
+        if n is fn:
+            return out
+        if isinstance(n, ast.If):
+            if child is not n.test:
+                out.append((n.test, any(child is x for x in n.body), n))
+        elif isinstance(n, ast.IfExp):
+            if child is not n.test:
+                out.append((n.test, child is n.body, n))
+        elif isinstance(n, (ast.For, ast.While, ast.Try, ast.With, ast.FunctionDef, ast.Lambda, ast.ListComp, ast.GeneratorExp)):
+            return None
+        child, n = n, mod.parent.get(n)
+    return None
+
+
+def _densifications_feeding(fi, expr, depth=4):
+    """Densifying expressions (`<v>.toarray()`, `<v>.todense()`, `<v>.A`) in
+    `expr` or in the definitions its names are reached by."""
+    out, seen = [], set()
+
+    def scan(e, d, at):
+        for x in ast.walk(e):
+            if isinstance(x, ast.Call) and isinstance(x.func, ast.Attribute) and x.func.attr in _DENSIFIERS and not x.args:
+                out.append((x, x.func.value))
+            elif isinstance(x, ast.Attribute) and x.attr == 'A' and isinstance(x.ctx, ast.Load):
+                out.append((x, x.value))
+        if d <= 0:
+            return
+        for x in ast.walk(e):
+            if isinstance(x, ast.Name) and isinstance(x.ctx, ast.Load):
+                try:
+                    sites = fi.rd.defs_at(at, x.id)
+                except Exception:
+                    continue
+                for s in sites:
+                    if s in ('PARAM', 'UNBOUND') or id(s) in seen:
+                        continue
+                    seen.add(id(s))
+                    v = fi.def_value(s, x.id)
+                    if v is not None:
+                        scan(v, d - 1, s)
+    scan(expr, depth, fi.stmt(expr))
+    return out
+
+
+def d4_densify_guard(ck, mod):
+    """`mle`: for every sparse container class the value handed to the
+    estimator has been densified.  The guards of the densifications that
+    reach an estimator call are evaluated over the finite domain of scipy's
+    sparse container classes (7 formats x {matrix, array})."""
+    rule = 'C12.D4.densify-guard'
+    try:
+        fn = mod.func('mle')
+    except AnalysisIncomplete:
+        ck.missing(rule, 'function mle not found in %s' % mod.rel)
+        return
+    fi = finfo(mod, fn)
+    ck.analysed(mod, fn)
+    n = 0
+    done = set()
+    for E in calls_in(fn, *_ESTIMATORS):
+        args = E.args + [k.value for k in E.keywords]
+        if not args:
+            continue
+        dens = _densifications_feeding(fi, args[0])
+        if not dens:
+            continue            # no densification on the way: C04.D5.container.densify decides that case
+        per_kind = {k: [] for k in _SPARSE_KINDS}
+        blame, unknown_why = None, None
+        for dnode, base in dens:
+            tests = _controlling_tests(mod, dnode, fn)
+            operand = u(base)
+            at = fi.stmt(dnode)
+            if tests is None or not tests:
+                unknown_why = 'the densification `%s` is not under an `if` on the container class' % u(dnode)[:60]
+                for k in _SPARSE_KINDS:
+                    per_kind[k].append(None)
+                continue
+
+            def atom(t, _operand=operand, _at=at):
+                f = _container_atom(ck, mod, t, _operand)
+                if f is None:
+                    return None
+                # the tested value is the densified value: same definitions reach both places
+                nm = t.args[0]
+                if isinstance(nm, ast.Name) and isinstance(base, ast.Name):
+                    ts = fi.stmt(t)
+                    if ts is None or fi.rd.defs_at(ts, nm.id) != fi.rd.defs_at(_at, nm.id):
+                        return None
+                return f
+            exp_tests = []
+            for t, pol, owner in tests:
+                try:
+                    # a named test (`sp = issparse(C)`): look at the definition when it is a temporary
+                    te = t if not isinstance(t, ast.Name) else (fi.temp_value(t) or t)
+                except Exception:
+                    te = t
+                exp_tests.append((te, pol, owner))
+            for k in _SPARSE_KINDS:
+                vals = []
+                for te, pol, owner in exp_tests:
+                    v = _tv(te, k, atom)
+                    v = v if pol or v is None else (not v)
+                    vals.append(v)
+                    if v is False and blame is None:
+                        blame = (te, owner, pol)
+                per_kind[k].append(_and3(vals))
+        verdict = {k: _or3(vs) for k, vs in per_kind.items()}
+        missed = [k for k in _SPARSE_KINDS if verdict[k] is False]
+        open_ = [k for k in _SPARSE_KINDS if verdict[k] is None]
+        n += 1
+        if missed and blame is not None:
+            te, owner, pol = blame
+            shown = u(te)[:80] if pol else 'not (%s)' % u(te)[:80]
+            key = (id(owner), tuple(missed))
+            if key in done:
+                continue
+            done.add(key)
+            ck.assume('scipy >= 1.11 container classes: issparse() is true for every sparse container, isspmatrix()/spmatrix only for '
+                      'the *_matrix classes, the *_array classes (sparray) are a separate hierarchy')
+            ck.bad(rule, mod, owner, 'mle', 'mle: %s' % u(te)[:120],
+                   'the condition `%s` under which the counts are densified before the iteration is False for the sparse '
+                   'containers %s: they reach the element-wise estimator `%s` as they are (len()/2-index cells of a sparse array '
+                   'raise TypeError/IndexError) instead of a model; the test must hold for EVERY sparse container '
+                   '(scipy.sparse.issparse)' % (shown, ', '.join(_kind_name(k) for k in missed), call_name(E)))
+        elif open_ or missed:
+            ck.missing(rule, 'mle: cannot decide for %s whether the counts are densified before `%s` (%s)' % (
+                ', '.join(_kind_name(k) for k in (open_ or missed)[:4]), call_name(E),
+                unknown_why or 'guard of the densification is not a test of the container class of the densified value'))
+        else:
+            key = tuple(id(d[0]) for d in dens)
+            if key in done:
+                continue
+            done.add(key)
+            ck.ok(rule, mod, dens[0][0], 'mle: %s reaches %s under a test that holds for all %d sparse container classes' % (
+                u(dens[0][0])[:60], call_name(E), len(_SPARSE_KINDS)), 'every sparse container is densified before the iteration')
+    ck.floor(rule, n, 1, 'estimator call in mle fed by a densification')
+
+
+def d4_dispatch(ck, mp):
+    """`_prinz_mle` hands ITS count matrix (possibly through a value-preserving
+    conversion: contiguity, float dtype, ndarray view) to the compiled
+    estimator on the dense path."""
+    rule = 'C12.D4.dispatch'
+    fd = mp.func('_prinz_mle')
+    fi = finfo(mp, fd)
+    ps = params(fd)
+    cs = [c for c in calls_in(fd) if (call_name(c) or '').split('.')[-1] == '_mle_prinz_dense']
+    if len(cs) != 1 or not ps:
+        ck.check(False, rule, mp, cs[0] if cs else fd, '_prinz_mle', u(cs[0]) if cs else '?',
+                 'dense input goes to the compiled estimator', '_prinz_mle must call _mle_prinz_dense(C, ...) exactly once (found %d calls)' % len(cs))
+        return
+    c, P = cs[0], ps[0]
+    a = c.args[0] if c.args else kwarg(c, 'C')
+    if a is None or isinstance(a, ast.Starred):
+        ck.missing(rule, '_prinz_mle: first argument of `%s` not explicit' % u(c)[:80])
+        return
+    forms = [P]
+    for f in ('np.asarray', 'np.ascontiguousarray', 'np.array', 'np.asanyarray'):
+        forms += ['%s(%s)' % (f, P)] + ['%s(%s, dtype=%s)' % (f, P, t) for t in ('float', 'np.float64', 'np.double', "'float64'")]
+    for t in ('float', 'np.float64', 'np.double', "'float64'"):
+        forms += ['%s.astype(%s)' % (P, t), '%s.copy().astype(%s)' % (P, t), '%s.astype(%s).copy()' % (P, t),
+                  'np.ascontiguousarray(%s.astype(%s))' % (P, t), "np.require(%s, dtype=%s, requirements='C')" % (P, t),
+                  "np.array(%s, dtype=%s, order='C')" % (P, t)]
+    forms += ['%s.copy()' % P, "np.require(%s, requirements='C')" % P, "np.array(%s, order='C')" % P]
+    v = classify(fi.expand(a), forms, scope={P})
+    # the parameter itself must be the caller's matrix (not rebound before the call)
+    if v[0] == 'match':
+        uses = [n for n in ast.walk(a) if isinstance(n, ast.Name) and n.id == P]
+        if uses and set(fi.defs_of_use(uses[0])) != {'PARAM'}:
+            v = ('far',)
+    ck.decide(v, rule, mp, c, '_prinz_mle', u(c), 'dense input goes to the compiled estimator',
+              '_prinz_mle must call _mle_prinz_dense(C, ...) with its own count matrix')
+
+
+# ---------------------------------------------------------------------------
+# D3: the compiled sibling accepts every memory layout the Python one accepts
+
+def _cy_buffer_options(ck, mod, fname):
+    """{name: {option: value}} of the buffer declarations (arguments and cdef
+    locals) of function `fname`, read from Cython's own parse tree: the shared
+    front end keeps only dtype and ndim."""
+    import os
+    from .. import pyxfront
+    from Cython.Compiler.Visitor import TreeVisitor
+    tree = pyxfront._cy_parse(os.path.join(ck.repo.root, mod.rel), mod.rel)
+    found = {}
+
+    def opts_of(bt):
+        if type(bt).__name__ != 'TemplatedTypeNode':
+            return None
+        o = {}
+        kw = getattr(bt, 'keyword_args', None)
+        for it in (kw.key_value_pairs if kw is not None else []):
+            val = getattr(it.value, 'value', None)
+            o[str(it.key.value)] = str(val) if val is not None else None
+        return o
+
+    def declname(d):
+        while d is not None and not getattr(d, 'name', None):
+            d = getattr(d, 'base', None)
+        return getattr(d, 'name', None)
+
+    class V(TreeVisitor):
+        def __init__(self):
+            super().__init__()
+            self.inside = 0
+
+        def visit_Node(self, n):
+            tn = type(n).__name__
+            if tn == 'DefNode' and n.name == fname and not self.inside:
+                self.inside += 1
+                for a in n.args:
+                    o = opts_of(a.base_type)
+                    if o is not None:
+                        found[declname(a.declarator)] = ('argument', o, a.pos[1] if a.pos else 0)
+                self.visitchildren(n)
+                self.inside -= 1
+                return
+            if tn == 'CVarDefNode' and self.inside:
+                o = opts_of(n.base_type)
+                if o is not None:
+                    for d in n.declarators:
+                        found[declname(d)] = ('local', o, n.pos[1] if n.pos else 0)
+            self.visitchildren(n)
+    V().visit(tree)
+    return found
+
+
+class _Line:
+    def __init__(self, lineno):
+        self.lineno = lineno
+
+
+# expressions whose value is a freshly allocated array that is contiguous in
+# the given order whatever the layout of the operands (frozen numpy facts)
+_CONTIG_1D = ['__.sum(axis=__)', '__.sum(__)', '__.mean(axis=__)', '__.copy()', 'np.zeros(__)', 'np.ones(__)', 'np.empty(__)',
+              'np.zeros(__, dtype=__)', 'np.ones(__, dtype=__)', 'np.empty(__, dtype=__)', 'np.ascontiguousarray(__)',
+              'np.asfortranarray(__)', 'np.arange(__)']
+_CONTIG = {
+    # elementwise op of an array and its own transpose: conflicting stride orders, numpy allocates C order
+    'c': ['_A + _A.T', '_A.T + _A', '_A + _A.transpose()', '_A.transpose() + _A', 'np.ascontiguousarray(__)', '__.copy()',
+          "__.copy(order='C')", "np.array(__, order='C')", "np.array(__, dtype=__, order='C')", 'np.zeros(__)', 'np.empty(__)',
+          'np.ones(__)', 'np.zeros(__, dtype=__)', 'np.empty(__, dtype=__)', 'np.ones(__, dtype=__)',
+          "np.require(__, requirements='C')", "__.astype(__, order='C')"],
+    'fortran': ['np.asfortranarray(__)', "__.copy(order='F')", "np.array(__, order='F')", "np.array(__, dtype=__, order='F')",
+                "np.zeros(__, order='F')", "np.empty(__, order='F')", "np.require(__, requirements='F')", "__.astype(__, order='F')"],
+}
+
+
+def _known_contiguous(e, mode, ndim):
+    from ..match import match_any
+    pats = list(_CONTIG.get(mode, []))
+    if ndim == 1:
+        pats += _CONTIG_1D
+    return match_any(pats, e) is not None
+
+
+def d3_layout(ck, rx, mp):
+    """Sibling agreement on the DOMAIN: `_prinz_mle_py` copies its argument and
+    therefore accepts every memory layout; a `mode="c"` / `mode="fortran"`
+    buffer declaration makes Cython's buffer acquisition raise ValueError for
+    every other layout (Fortran-ordered result of fancy-index trimming,
+    transposed view, strided block)."""
+    rule = 'C12.D3.domain.layout'
+    mod, fn, fi = rx.mod, rx.fn, rx.fi
+    F = fn.name
+    try:
+        opts = _cy_buffer_options(ck, mod, F)
+    except AnalysisIncomplete as e:
+        ck.missing(rule, 'buffer declarations of %s not readable: %s' % (F, e))
+        return
+    except Exception as e:
+        ck.missing(rule, 'buffer declarations of %s not readable (%r)' % (F, e))
+        return
+    n = 0
+    for name, (where, o, line) in sorted(opts.items(), key=lambda kv: kv[1][2]):
+        mode = (o.get('mode') or 'strided').lower()
+        ndim = int(o['ndim']) if (o.get('ndim') or '').isdigit() else None
+        decl = '%s %s: mode="%s"' % (where, name, mode)
+        n += 1
+        if mode in ('strided', 'full'):
+            ck.ok(rule, mod, _Line(line), '%s %s%s' % (where, name, '' if 'mode' not in o else ' (mode="%s")' % mode),
+                  'buffer accepts every memory layout')
+            continue
+        if mode not in _CONTIG:
+            ck.missing(rule, '%s: buffer mode not in the table (%s)' % (F, decl))
+            continue
+        if where == 'argument':
+            # every caller in the package must hand over an array that is contiguous in that order
+            sites = []
+            for m2 in (mp, mod):
+                for q, f2 in m2.functions.items():
+                    for c in calls_in(f2, F):
+                        sites.append((m2, f2, c))
+            pos = params(fn).index(name) if name in params(fn) else None
+            unsafe = []
+            for m2, f2, c in sites:
+                a = c.args[pos] if pos is not None and pos < len(c.args) else kwarg(c, name)
+                if a is None or not _known_contiguous(finfo(m2, f2).expand(a), mode, ndim):
+                    unsafe.append('%s::%s `%s`' % (m2.rel.split('/')[-1], f2.name, u(c)[:60]))
+            if sites and not unsafe:
+                ck.ok(rule, mod, _Line(line), decl, 'every caller passes an array made contiguous in that order')
+                continue
+            ck.bad(rule, mod, _Line(line), F, decl,
+                   'the compiled estimator declares its count-matrix argument `%s` with mode="%s": Cython\'s buffer acquisition '
+                   'raises ValueError("ndarray is not %s-contiguous") for every other layout (Fortran-ordered result of '
+                   'C[keep][:, keep], transposed view, strided block), while the pure-Python sibling (which copies its argument) '
+                   'returns the MLE; the caller %s passes the matrix as it is. The two implementations no longer agree on '
+                   'every count matrix' % (name, mode, 'C' if mode == 'c' else 'Fortran', ', '.join(unsafe) or '(public entry point)'))
+        else:
+            # a local buffer: every value assigned to it must be contiguous in that order
+            vals = []
+            for s in walk_local(fn):
+                v = fi.def_value(s, name) if isinstance(s, (ast.Assign, ast.AnnAssign)) else None
+                if v is not None:
+                    vals.append((s, v))
+            unknown = [(s, v) for s, v in vals if not _known_contiguous(fi.expand(v, stop=rx.states), mode, ndim)]
+            other = 'c' if mode == 'fortran' else 'fortran'
+            wrong = [(s, v) for s, v in unknown if ndim and ndim >= 2 and _known_contiguous(fi.expand(v, stop=rx.states), other, ndim)]
+            if vals and not unknown:
+                ck.ok(rule, mod, vals[0][0], decl, 'initialiser is a fresh array contiguous in that order for every input layout')
+            elif wrong:
+                ck.bad(rule, mod, wrong[0][0], F, decl,
+                       'the local buffer `%s` is declared mode="%s" but `%s` is a fresh %s-ordered array for every input: the '
+                       'assignment raises ValueError("ndarray is not %s-contiguous") for every matrix with more than one state, '
+                       'while the pure-Python sibling returns the MLE' % (
+                           name, mode, u(wrong[0][1])[:60], 'C' if other == 'c' else 'Fortran', 'C' if mode == 'c' else 'Fortran'))
+            else:
+                ck.missing(rule, '%s: %s - layout of the assigned value `%s` not decided' % (
+                    F, decl, u(unknown[0][1])[:60] if unknown else '?'))
+    ck.floor(rule, n, 4, 'buffer declarations in %s' % F)
+    # dtype: informational (the dispatcher passes the matrix on without conversion)
+    at = getattr(fn, 'cy_argtypes', {}).get(rx.C)
+    if at is not None and at.is_buffer and at.elem and 'float' in at.elem:
+        ck.observe('C12.D3.domain.dtype', mod, fn, '%s accepts only %s buffers for `%s`; _prinz_mle_py converts with astype(float): '
+                   'integer count matrices reach the compiled estimator only through a caller that converts them' % (F, at.elem, rx.C))
+
+
+# ---------------------------------------------------------------------------
 
 def _guarded(ck, rule, f, r):
     """A part of the analysis that breaks down on an unforeseen shape must not
@@ -1302,10 +1791,15 @@ def check(ck):
                       '_prinz_mle_py must copy the counts to float before iterating')
     # mle: densify + rewrap (shared with C04)
     _shared_mle_rule(ck, mp)
+    # ... and the densification covers every sparse container class
+    try:
+        d4_densify_guard(ck, mp)
+    except (AnalysisIncomplete, AttributeError, KeyError, IndexError, TypeError, ValueError, RecursionError) as e:
+        ck.missing('C12.D4.densify-guard', 'mle: construct outside the shapes the rule models (%r)' % (e,))
+    # the compiled sibling accepts every memory layout the Python one accepts
+    if rx is not None:
+        _guarded(ck, 'C12.D3.domain.layout', lambda ck_, r_: d3_layout(ck_, r_, mp), rx)
     check_no_arg_mutation(ck, 'C12.D6.inputs-unmodified', [(BU, 'mle'), (BU, '_prinz_mle_py'), (LM, '_mle_prinz_dense'), (BU, '_prinz_mle')])
     # _prinz_mle dispatch
-    fd = mp.func('_prinz_mle')
-    cs = [c for c in calls_in(fd) if call_name(c) == '_mle_prinz_dense']
-    ck.check(len(cs) == 1 and len(cs[0].args) >= 1 and u(cs[0].args[0]) == params(fd)[0], 'C12.D4.dispatch', mp, cs[0] if cs else fd, '_prinz_mle', u(cs[0]) if cs else '?',
-             'dense input goes to the compiled estimator', '_prinz_mle must call _mle_prinz_dense(C, ...)')
+    d4_dispatch(ck, mp)
     return EXPLANATION
